@@ -378,24 +378,44 @@ def sf_wsum(ev, fields, lo, hi):
     arr = z3.Select(ev.st.heap['lat'], fields.z)
     gw = ev.st.heap['Bits.ghost_w']
     f = z3.Function('wsum', arr.sort(), gw.sort(), T.I, T.I, T.I)
-    key = ('wsum', arr.get_id(), gw.get_id())
+    key = ('wsum',)
     if key not in ev.eng._facts_added:
+        # one generic pair of defining axioms (quantified over the list contents and the width table too, so
+        # that the triggers never contain the lambda / store terms of a particular heap version)
         ev.eng._facts_added.add(key)
         a, b = z3.Ints('a!ws b!ws')
-        w_a = z3.Select(gw, T.Val.rval(tuple_parts(z3.Select(arr, a), 2)[1][1]))
-        def fa(vs, body, pats):
-            try:
-                return z3.ForAll(vs, body, patterns=pats)
-            except z3.Z3Exception:
-                return z3.ForAll(vs, body)
-        ev.eng.extra_hyps.append(fa([a, b], z3.Implies(a >= b, f(arr, gw, a, b) == 0), [f(arr, gw, a, b)]))
-        ev.eng.extra_hyps.append(fa([a, b], z3.Implies(a < b, f(arr, gw, a, b) == w_a + f(arr, gw, a + 1, b)),
-                                    [f(arr, gw, a, b)]))
+        A = z3.Const('A!ws', arr.sort())
+        W = z3.Const('W!ws', gw.sort())
+        w_a = z3.Select(W, T.Val.rval(tuple_parts(z3.Select(A, a), 2)[1][1]))
+        ev.eng.extra_hyps.append(z3.ForAll([A, W, a, b], z3.Implies(a >= b, f(A, W, a, b) == 0), patterns=[f(A, W, a, b)]))
+        ev.eng.extra_hyps.append(z3.ForAll([A, W, a, b], z3.Implies(a < b, f(A, W, a, b) == w_a + f(A, W, a + 1, b)),
+                                           patterns=[f(A, W, a, b)]))
     return VInt(f(arr, gw, ev.eng.as_int(lo)[0], ev.eng.as_int(hi)[0]))
 
 
 def sf_hasattr_bit_count(ev, f):
     return VBool(z3.Select(ev.st.heap['Bits.bit_count?'], f.z))
+
+
+def sf_forall_slots_fresh(ev, v):
+    z = to_val(v)
+    r = z3.If(T.Val.is_VL(z), T.Val.lval(z), z3.If(T.Val.is_VR(z), T.Val.rval(z), T.Val.oval(z)))
+    nm = z3.String('n!fs')
+    sv = z3.Select(z3.Select(ev.st.heap['slots'], r), nm)
+    hv = z3.Select(z3.Select(ev.st.heap['has'], r), nm)
+    prim = z3.Or(T.Val.is_VI(sv), T.Val.is_VB(sv), T.Val.is_VN(sv), T.Val.is_VBy(sv), T.Val.is_VS(sv))
+    ref = z3.If(T.Val.is_VL(sv), T.Val.lval(sv), z3.If(T.Val.is_VR(sv), T.Val.rval(sv), T.Val.oval(sv)))
+    body = z3.Implies(hv, z3.Or(prim, ref >= ev.old.heap['next']))
+    if ev.goal:
+        n0 = z3.String('n!fs%d' % id(v))
+        return VBool(z3.substitute(body, (nm, n0)))
+    return VBool(z3.ForAll([nm], body))
+
+
+def sf_isprim_or_blob(ev, v):
+    z = to_val(v)
+    return VBool(z3.Or(T.Val.is_VI(z), T.Val.is_VB(z), T.Val.is_VN(z), T.Val.is_VBy(z), T.Val.is_VS(z),
+                       z3.And(T.Val.is_VO(z), z3.Function('is_pickle_blob', T.I, T.B)(T.Val.oval(z)))))
 
 
 SPECFUNCS = {k[3:]: v for k, v in list(globals().items()) if k.startswith('sf_')}
